@@ -109,28 +109,24 @@ func TestVF(t *testing.T) {
 				}
 			}
 			if len(own) > 0 && res.Infra == "" {
-				v := own[0]
-				for _, c := range own {
-					if !known[c.Key] {
-						v = c
-						break
+				res.Plans = map[string]*vfPlan{}
+				for _, v := range own {
+					if _, done := res.Plans[v.Key]; done {
+						continue
+					}
+					if !shrunk[v.Key] && job.Shrink > 0 && !known[v.Key] {
+						shrunk[v.Key] = true
+						min, runs := vfShrink(t, plan, v, job.Shrink)
+						min.Class, min.Key, min.Expect = v.Class, v.Key, v.Detail
+						res.Plans[v.Key] = min
+						res.ShrunkFrom, res.ShrunkRuns = len(plan.Steps), res.ShrunkRuns+runs
+					} else {
+						p := *plan
+						p.Class, p.Key, p.Expect = v.Class, v.Key, v.Detail
+						res.Plans[v.Key] = &p
 					}
 				}
-				if !shrunk[v.Key] && job.Shrink > 0 {
-					shrunk[v.Key] = true
-					budget := job.Shrink
-					if known[v.Key] {
-						budget = 0
-					}
-					min, runs := vfShrink(t, plan, v, budget)
-					min.Class, min.Key, min.Expect = v.Class, v.Key, v.Detail
-					res.Plan = min
-					res.ShrunkFrom, res.ShrunkRuns = len(plan.Steps), runs
-				} else {
-					p := *plan
-					p.Class, p.Key, p.Expect = v.Class, v.Key, v.Detail
-					res.Plan = &p
-				}
+				res.Plan = nil
 			} else if i >= job.Samples {
 				res.Plan = nil
 				res.Log = nil
@@ -144,22 +140,26 @@ func TestVF(t *testing.T) {
 					dp.Prop, dp.Seed = job.Prop, seed
 					dr := vfRunPlan(t, dp, false)
 					dr.Variant = dp.Variant
+					dr.Plans = map[string]*vfPlan{}
 					for _, v := range dr.Violations {
 						if v.Prop != job.Prop {
+							continue
+						}
+						if _, done := dr.Plans[v.Key]; done {
 							continue
 						}
 						if !shrunk[v.Key] && job.Shrink > 0 && !known[v.Key] {
 							shrunk[v.Key] = true
 							min, runs := vfShrink(t, dp, v, job.Shrink)
 							min.Class, min.Key, min.Expect = v.Class, v.Key, v.Detail
-							dr.Plan, dr.ShrunkFrom, dr.ShrunkRuns = min, len(dp.Steps), runs
+							dr.Plans[v.Key], dr.ShrunkFrom, dr.ShrunkRuns = min, len(dp.Steps), runs
 						} else {
 							q := *dp
 							q.Class, q.Key, q.Expect = v.Class, v.Key, v.Detail
-							dr.Plan = &q
+							dr.Plans[v.Key] = &q
 						}
-						break
 					}
+					dr.Plan = nil
 					if len(dr.Violations) == 0 {
 						dr.Plan, dr.Log = nil, nil
 					}
